@@ -135,7 +135,7 @@ def check_filter(ctx, out, dv):
                 if len(ps) == 1:
                     up2param[nm] = ps.pop()
     # which parameter is which: from the call in main
-    main = ctx.facts.bodies.get("bwbin::main")
+    main = ctx.main_view()
     role_of_param = {}
     if main is not None:
         for bi, t in main.calls():
@@ -254,7 +254,7 @@ def semantic_filter_check(got):
 
 def check_args(ctx, out, dv):
     n = 0
-    main = ctx.facts.bodies.get("bwbin::main")
+    main = ctx.main_view()
     sites = [(bi, t) for bi, t in main.calls() if (t.get("res") or "") == dv.id] if main else []
     if len(sites) != 1:
         out.inst("C14.args", 0, 4, note="call of the detection function in main not found")
@@ -610,7 +610,7 @@ def check_cli_shape(ctx, out, rule, want):
 def check_parse_entry(ctx, out, rule="C14.parse"):
     """The command line is parsed with `clap::Parser::parse` (clap prints the error and exits with
     status 2 itself) - or with a fallible variant whose Err is returned from main."""
-    main = ctx.facts.bodies.get("bwbin::main")
+    main = ctx.main_view()
     if main is None:
         out.inst(rule, 0, 1)
         return
